@@ -328,6 +328,19 @@ def check(prop, tier, seed):
                         jobs.append(ex.submit(correspond_shard, binp, pf, gen, scale, seed, sh_i, nshards,
                                               cfg.get("timeout", 1500)))
             results = [j.result() for j in jobs]
+        # corpus of minimised past failures: always run, in every profile
+        cdir = os.path.join(ROOT, "corpus", prop)
+        if os.path.isdir(cdir):
+            text = ""
+            for fn in sorted(os.listdir(cdir)):
+                text += "@reset\n" + "".join(l for l in open(os.path.join(cdir, fn)) if not l.startswith("@") or l.startswith("@reset"))
+            for pf, binp in bins.items():
+                env = dict(os.environ); env["VERIF_TMP"] = tmpdir()
+                p = subprocess.run([binp, "exec"], input=text, stdout=subprocess.PIPE, stderr=subprocess.PIPE, text=True, env=env)
+                transcript = header(pf) + p.stdout
+                rc, out = run_driver(transcript)
+                results.append(dict(profile=pf, gen="corpus", shard=0, crashed=None if p.returncode == 0 else "harness exit %d" % p.returncode,
+                                    transcript=transcript, out=out, rc=rc))
         for r in results:
             nes, s, rg, fl = parse_driver(r["out"])
             for k, v in s.items():
@@ -359,6 +372,23 @@ def check(prop, tier, seed):
         path = write_replay(prop, "crash_%s_%d" % (r["profile"], r["shard"]),
                             ["# harness died: %s" % r["crashed"], "# last lines executed:"] + lines[:3] + lines[-40:])
         violations.append((path, "harness process died (%s) in profile %s" % (r["crashed"], r["profile"]), False))
+
+    # property-specific forbidden outcomes on the implementation side (e.g. C08: any out-of-bounds access caught by the hooks)
+    forbid = cfg.get("forbid", [])
+    if forbid:
+        nforb = 0
+        for r in results:
+            for i, l in enumerate(r["transcript"].splitlines()):
+                if " => " not in l:
+                    continue
+                out = l.split(" => ", 1)[1].split()
+                if any(t in out for t in forbid):
+                    ne = dict(line=i + 1, kind="IMPL_NE_SPEC", recipe=l.split(" => ")[0], impl=l.split(" => ", 1)[1], spec="(no %s)" % "/".join(forbid),
+                              profile=r["profile"], _r=r)
+                    if not any(x["line"] == ne["line"] and x["_r"] is r for x in all_nes):
+                        all_nes.append(ne)
+                    nforb += 1
+        stats["forbidden_outcomes"] = nforb
 
     # three-way verdicts
     seen_sig = set()
